@@ -2,6 +2,8 @@ package harness
 
 import (
 	"bytes"
+	"encoding/base64"
+	"encoding/hex"
 	"encoding/json"
 	"fmt"
 	"os"
@@ -28,12 +30,40 @@ func genField(t *rapid.T, label string) uint32 {
 	return rapid.SampledFrom(c15Fields).Draw(t, label+"pick")
 }
 
+// byte alphabets for hashes that are themselves text: a digest pasted as hex, base58, base64 or decimal text
+var c15Alphabets = []string{"0123456789abcdef", "0123456789ABCDEF", "0123456789abcdefABCDEF", "0123456789",
+	"123456789ABCDEFGHJKLMNPQRSTUVWXYZabcdefghijkmnopqrstuvwxyz", "ABCDEFGHIJKLMNOPQRSTUVWXYZabcdefghijklmnopqrstuvwxyz0123456789+/=", " \t\n", ".:%/", "\x00\xff"}
+
 func genHashBytes(t *rapid.T, label string) []byte {
 	n := rapid.SampledFrom([]int{20, 21, 32, 32, 32, 33, 48, 63, 64}).Draw(t, label+"len")
 	if rapid.IntRange(0, 4).Draw(t, label+"anylen") == 0 {
 		n = rapid.IntRange(20, 64).Draw(t, label+"len2")
 	}
+	if rapid.IntRange(0, 7).Draw(t, label+"text") == 0 {
+		al := []byte(rapid.SampledFrom(c15Alphabets).Draw(t, label+"alphabet"))
+		return rapid.SliceOfN(rapid.SampledFrom(al), n, n).Draw(t, label+"txt")
+	}
 	return rapid.SliceOfN(rapid.Byte(), n, n).Draw(t, label)
+}
+
+// textOf returns the hash bytes spelled as text (hex, base64, base58), cut to 64 bytes: a different hash that a
+// lenient encoder might take for the same digest.
+func textOf(t *rapid.T, h []byte) []byte {
+	var out []byte
+	switch rapid.IntRange(0, 3).Draw(t, "textenc") {
+	case 0:
+		out = []byte(hex.EncodeToString(h))
+	case 1:
+		out = []byte(strings.ToUpper(hex.EncodeToString(h)))
+	case 2:
+		out = []byte(base64.StdEncoding.EncodeToString(h))
+	default:
+		out = []byte(base58.Encode(h))
+	}
+	if len(out) > 64 {
+		out = out[:64]
+	}
+	return out
 }
 
 func genExt(t *rapid.T, label string) string {
@@ -64,7 +94,15 @@ func nearVariant(t *rapid.T, h *data.ContentHash) *data.ContentHash {
 		}
 		return x - k
 	}
-	mode := rapid.IntRange(0, 5).Draw(t, "nearmode")
+	mode := rapid.IntRange(0, 6).Draw(t, "nearmode")
+	if mode == 6 { // the other hash is this hash's digest spelled as text
+		if g := c.Graph; g != nil {
+			g.Hash = textOf(t, g.Hash)
+		} else {
+			c.Raw.Hash = textOf(t, c.Raw.Hash)
+		}
+		return c
+	}
 	if g := c.Graph; g != nil {
 		switch mode {
 		case 0:
@@ -194,6 +232,13 @@ func checkString(s string) (key string, anchorable bool, err error) {
 			key, anchorable, err = "parser-panics", false, fmt.Errorf("ParseIRI(%q) panics: %v", s, r)
 		}
 	}()
+	// what the chain's own conversion query accepts must be canonical too (and agree with the parser)
+	var qr data.ConvertIRIToHashResponse
+	if qe := eng.TemplateChain().Query("/regen.data.v2.Query/ConvertIRIToHash", &data.ConvertIRIToHashRequest{Iri: s}, &qr); qe == nil && qr.ContentHash != nil && qr.ContentHash.Validate() == nil {
+		if iri, e := qr.ContentHash.ToIRI(); e != nil || iri != s {
+			return "query-accepts-second-spelling", true, fmt.Errorf("ConvertIRIToHash(%q) answers %v whose IRI is %q: the chain accepts a non-canonical spelling", s, qr.ContentHash, iri)
+		}
+	}
 	h, e := data.ParseIRI(s)
 	if e != nil || h == nil {
 		return "", false, nil
@@ -218,7 +263,23 @@ func genIRIString(t *rapid.T) string {
 	if iri, err := h.ToIRI(); err == nil {
 		valid = iri
 	}
-	switch rapid.IntRange(0, 9).Draw(t, "strmode") {
+	switch rapid.IntRange(0, 10).Draw(t, "strmode") {
+	case 10: // percent-encode some characters, as a REST client does with a path segment
+		b := []byte(valid)
+		var sb strings.Builder
+		forced := rapid.IntRange(0, len(b)-1).Draw(t, "pcti")
+		for i, ch := range b {
+			if i == forced || (!('a' <= ch && ch <= 'z' || 'A' <= ch && ch <= 'Z' || '0' <= ch && ch <= '9') && rapid.Bool().Draw(t, "pct")) {
+				if rapid.Bool().Draw(t, "pctcase") {
+					fmt.Fprintf(&sb, "%%%02X", ch)
+				} else {
+					fmt.Fprintf(&sb, "%%%02x", ch)
+				}
+			} else {
+				sb.WriteByte(ch)
+			}
+		}
+		return sb.String()
 	case 0:
 		return valid
 	case 1: // flip one character
